@@ -227,7 +227,7 @@ impl Check for C12 {
         "C12"
     }
     fn rule(&self) -> String {
-        "case = one in-memory LSP session (real main_loop + worker threads) on a generated library: a random sequence of requests over every method in Router::on_request x hostile parameter values (unknown / outside / non-file / percent-encoded URIs, positions past EOL / EOF / u32::MAX, stale / missing / mistyped code-action data, taken / empty / slashed rename names, unknown commands and methods, mistyped params), interleaved with edits; each request's outcome is decided on hook event Exited(id) (exactly one response by then), followed by a liveness probe (formatting of a known note vs an independent model); the loop must end Ok on shutdown/exit; distinct = (method, parameter class) pairs x outcome kind".into()
+        "case = one in-memory LSP session (real main_loop + worker threads) on a generated library: a random sequence of requests over every method in Router::on_request x hostile parameter values (unknown / outside / non-file / percent-encoded URIs, positions past EOL / EOF / u32::MAX, stale / missing / mistyped code-action data, taken / empty / slashed rename names, unknown commands and methods, mistyped params), interleaved with edits; each request's outcome is decided on hook event Exited(id) (exactly one response by then), followed by a liveness probe (formatting of a known note vs an independent model); the loop must end Ok on shutdown/exit; a pinned session resolves every code action offered on a note that references itself; a request that kills the server process (the server runs inside the worker) is a violation; one session runs against the real iwes binary over stdio; distinct = (method, parameter class) pairs x outcome kind".into()
     }
     fn death_is_violation(&self) -> bool {
         // the server runs inside the worker process: a request that kills the process (a stack overflow is not a panic and
